@@ -19,6 +19,8 @@ import (
 	gsync "github.com/acquirecloud/golibs/sync"
 	"github.com/acquirecloud/golibs/timeout"
 	"github.com/acquirecloud/golibs/zsimrt"
+	"google.golang.org/grpc/codes"
+	"google.golang.org/grpc/status"
 )
 
 const lockName = "L"
@@ -29,6 +31,21 @@ const lockKey = lockPath + lockName
 var noiseNames = []string{"L2", "l", "L/L", "", "LL", "K"}
 
 var errInjected = stderrors.New("injected: storage unavailable")
+
+// injErrs: what an unavailable storage answers with (knob err_kind). A remote storage
+// reports failures as gRPC status errors; the codes below have no counterpart among the
+// library's error kinds (errors/grpc.go maps them to ErrInternal), Unknown is what a
+// plain error looks like to errors.Is.
+var injErrs = []error{
+	errInjected,
+	status.Error(codes.Unavailable, "injected: storage unavailable"),
+	status.Error(codes.Internal, "injected: storage unavailable"),
+	status.Error(codes.Aborted, "injected: storage unavailable"),
+	status.Error(codes.ResourceExhausted, "injected: storage unavailable"),
+	status.Error(codes.Unknown, "injected: storage unavailable"),
+}
+
+func (s *simStore) inj() error { return injErrs[int(s.w.c.Knob("err_kind", 0))%len(injErrs)] }
 
 type provider struct {
 	idx          int
@@ -160,14 +177,14 @@ func (s *simStore) gate(ctx context.Context, kind string, renew bool) (execute b
 	if w.partitioned[s.node] {
 		w.e.FaultFired("partition_request_lost")
 		w.e.Logf("st n%d %s#%d partitioned", s.node, kind, ord)
-		return false, false, errInjected
+		return false, false, s.inj()
 	}
 	if f, ok := s.fault(seam, ord); ok {
 		switch f.Kind {
 		case "req_lost":
 			w.e.FaultFired(seam + "_request_lost")
 			w.e.Logf("st n%d %s#%d request lost", s.node, kind, ord)
-			return false, false, errInjected
+			return false, false, s.inj()
 		case "reply_lost":
 			w.e.FaultFired(seam + "_reply_lost")
 			w.e.Logf("st n%d %s#%d reply lost", s.node, kind, ord)
@@ -193,7 +210,7 @@ func (s *simStore) gate(ctx context.Context, kind string, renew bool) (execute b
 				w.voided = true
 				w.e.Void("a renewal call hung for a quarter of the lease or more while the lock was held: storage did not answer, lease keeping not judged")
 			}
-			return false, false, errInjected
+			return false, false, s.inj()
 		}
 	}
 	return true, false, nil
@@ -213,7 +230,7 @@ func (s *simStore) Create(ctx context.Context, r kvs.Record) (string, error) {
 	zsimrt.Yield("st:resp:create")
 	s.replyLatency()
 	if lost {
-		return "", s.wrapErr(errInjected)
+		return "", s.wrapErr(s.inj())
 	}
 	return ver, s.wrapErr(err)
 }
@@ -246,7 +263,7 @@ func (s *simStore) Get(ctx context.Context, key string) (kvs.Record, error) {
 	r, err := s.base.Get(ctx, key)
 	zsimrt.Yield("st:resp:get")
 	if lost {
-		return kvs.Record{}, s.wrapErr(errInjected)
+		return kvs.Record{}, s.wrapErr(s.inj())
 	}
 	return r, s.wrapErr(err)
 }
@@ -267,7 +284,7 @@ func (s *simStore) Put(ctx context.Context, r kvs.Record) (kvs.Record, error) {
 	}
 	zsimrt.Yield("st:resp:put")
 	if lost {
-		return kvs.Record{}, s.wrapErr(errInjected)
+		return kvs.Record{}, s.wrapErr(s.inj())
 	}
 	return rr, s.wrapErr(err)
 }
@@ -294,7 +311,7 @@ func (s *simStore) CasByVersion(ctx context.Context, r kvs.Record) (kvs.Record, 
 	}
 	zsimrt.Yield("st:resp:cas")
 	if lost {
-		return kvs.Record{}, s.wrapErr(errInjected)
+		return kvs.Record{}, s.wrapErr(s.inj())
 	}
 	return rr, s.wrapErr(err)
 }
@@ -310,7 +327,7 @@ func (s *simStore) Delete(ctx context.Context, key string) error {
 	zsimrt.Yield("st:resp:delete")
 	s.replyLatency()
 	if lost {
-		return s.wrapErr(errInjected)
+		return s.wrapErr(s.inj())
 	}
 	return s.wrapErr(err)
 }
@@ -324,7 +341,7 @@ func (s *simStore) WaitForVersionChange(ctx context.Context, key, ver string) er
 	err := s.base.WaitForVersionChange(ctx, key, ver)
 	zsimrt.Yield("st:resp:wait")
 	if lost {
-		return s.wrapErr(errInjected)
+		return s.wrapErr(s.inj())
 	}
 	return s.wrapErr(err)
 }
@@ -349,10 +366,19 @@ func errStr(err error) string {
 		return "Canceled"
 	case stderrors.Is(err, context.DeadlineExceeded):
 		return "DeadlineExceeded"
-	case stderrors.Is(err, errInjected):
+	case isInjected(err):
 		return "injected"
 	}
 	return "error(" + err.Error() + ")"
+}
+
+func isInjected(err error) bool {
+	for _, ie := range injErrs {
+		if stderrors.Is(err, ie) {
+			return true
+		}
+	}
+	return false
 }
 
 // ---------------------------------------------------------------------------
